@@ -40,7 +40,7 @@ Definition read_binary (s0 : stream) (sev : Z) (need_delims : bool) : option (li
             if N.eqb c2 DQUOTE then negb valid0
             else if need_delims then false else valid0 in
         (match str with [] => None | _ => Some str end,
-         if valid then sev else Z.min sev SEVERITY_WARNING, s5)
+         if valid && negb (match str with [] => true | _ => false end) then sev else Z.min sev SEVERITY_WARNING, s5)
       else (None, Z.min sev SEVERITY_WARNING, s2)
     | (None, s2) => (None, Z.min sev SEVERITY_WARNING, s2)
     end
